@@ -292,3 +292,44 @@ pub fn run_encode(r: &mut Rng, n: usize, big: usize, out: &mut Out) {
         }
     }
 }
+
+/// deepest backward pointer chains: every name is `ptr → previous name`, the first is the root.
+/// Depth d needs 12 + 1 + 2*d octets (pointers overlapping: each 2-octet pointer targets the
+/// pointer before it).  Decoded on a thread with the given stack size (a server worker's is 2 MiB).
+pub fn deep_chain(depth: usize) -> Vec<u8> {
+    // header, no question, two answers.  RR1 = root NULL whose RDATA is: a root label at offset 23
+    // followed by `depth-1` two-octet pointers, each to the element before it (pointer targets need
+    // not be name starts).  RR2's owner name is a pointer to the last of them, so decoding it
+    // nests `depth` pointer expansions.  Everything pointed to lies below offset 16384.
+    let depth = depth.clamp(1, 8180);
+    let mut v = vec![0x42, 0x42, 0, 0, 0, 0, 0, 2, 0, 0, 0, 0];
+    v.extend([0, 0, 10, 0, 1, 0, 0, 0, 0]); // root, NULL, IN, ttl 0
+    let rdlen = 1 + 2 * (depth - 1);
+    v.extend([(rdlen >> 8) as u8, rdlen as u8]);
+    let mut prev = v.len(); // 23
+    v.push(0);
+    for _ in 0..depth - 1 {
+        let here = v.len();
+        v.extend([0xC0 | (prev >> 8) as u8, prev as u8]);
+        prev = here;
+    }
+    // RR2: owner = pointer to the last chain element, A record
+    v.extend([0xC0 | (prev >> 8) as u8, prev as u8, 0, 1, 0, 1, 0, 0, 0, 0, 0, 4, 1, 2, 3, 4]);
+    v
+}
+
+pub fn run_deep(out: &mut Out) {
+    for (depth, stack_kib) in [(10usize, 2048usize), (1000, 2048), (2000, 2048), (4000, 2048), (6000, 2048), (8180, 2048)] {
+        let bytes = deep_chain(depth);
+        let b2 = bytes.clone();
+        let h = std::thread::Builder::new()
+            .stack_size(stack_kib * 1024)
+            .spawn(move || match Message::from_octets(&b2) {
+                Ok(m) => format!("ok answers={}", m.answers.len()),
+                Err(e) => format!("err {e:?}"),
+            })
+            .unwrap();
+        let res = h.join().unwrap_or_else(|_| "panic".to_string());
+        out.case(&["decode-deep", &depth.to_string(), &stack_kib.to_string(), &c::hex(&bytes)], &res);
+    }
+}
